@@ -123,5 +123,19 @@ package node
 //@ func (Return).byteCode [C05,C12] implements ByteCoder.byteCode
 //@   assumes[unfold] exprOK(r.Target)
 //
+//@ type Constanter.Constant [C05,C12] pure trusted
+//@   params self
+//@ type HasCaller.HasCall [C05,C12] pure trusted
+//@   params self
+//
+// Array literal: the constant prefix goes to the data segment as one array; the remaining elements are
+// appended one by one at run time (ARR), each compiled as an ordinary operand.
+//@ pred emitInv(cr compResult) bool := crOK(cr) && csKept(cr) && csNewWF(cr) && dsKept(cr)
+//@ func (List).byteCode [C05,C12] implements ByteCoder.byteCode
+//@   assumes[unfold] forall k :: 0 <= k && k < len(l.Elems) ==> exprOK(l.Elems[k])
+//@   loop 0 invariant[prefix] 0 <= i && i <= len(l.Elems) && (len(ary) == 0 || fresh(ary)) && crOK(cr)
+//@       && same(*cr.CS, old(*cr.CS)) && same(*cr.DS, old(*cr.DS)) && csKept(cr) && dsKept(cr)
+//@   loop 1 invariant[rest] -1 <= rangeindex && 0 <= i && i < len(l.Elems) && emitInv(cr)
+//
 //@ canary func (Name).Name
 //@   ensures false
